@@ -2,6 +2,7 @@ import WzVerif.Driver.Proto
 import WzVerif.Model.Http
 import WzVerif.Model.Date
 import WzVerif.Model.Containers
+import WzVerif.Model.HeaderSetCtor
 import WzVerif.Driver.PyPrelude
 namespace Wz.Driver.C06
 open Wz Wz.Proto Wz.Http
@@ -168,7 +169,7 @@ def handle : Handler
   | "list.parse", [h] => withStr h fun h => strList (parseListHeader h)
   | "dict.parse", [h] => withStr h fun h => exc pairsOpt (parseDictHeader h)
   | "opt.parse", [h] => withStr h fun h => exc optionsOut (parseOptionsHeader h)
-  | "set.parse", [h] => withStr h fun h => strList (parseSetHeader h)
+  | "set.parse", [h] => withStr h fun h => strList (parseSetMembers h)
   | "etags.parse", [h] => withStr h fun h => etagsOut (parseEtags h)
   | "etag.unquote", [h] => withStr h fun h =>
     match unquoteEtag h with | none => "~" | some (e, w) => hexStr e ++ "|" ++ outBool w
@@ -199,7 +200,7 @@ def handle : Handler
     | none => some badArgs
   | "pair.set", [l] =>
     match listArg l with
-    | some l => let w := headerSetToHeader l; some (pair w (strList (parseSetHeader w)))
+    | some l => let w := headerSetToHeader (headerSetMembers l); some (pair w (strList (parseSetMembers w)))
     | none => some badArgs
   | "pair.dict", [d] =>
     match pairsOptArg d with
@@ -274,9 +275,9 @@ def handle : Handler
     -- HeaderSet(init), the history, to_header, parse_set_header: log | final | wire | parsed
     match listArg init, hsOpsArg ops with
     | some init, some ops =>
-      let r := hsRunLog (HS.construct init) ops
+      let r := hsRunLog (hsCtor init) ops
       let w := HS.toHeader r.1
-      let p := HS.construct (parseSetHeader w)
+      let p := parseSetObj w
       some (outList id r.2 ++ "|" ++ hsOut r.1 ++ "|" ++ hexStr w ++ "|" ++ hsOut p)
     | _, _ => some badArgs
   | "hist.cc", [d, ops, queries] =>
